@@ -71,6 +71,46 @@ PROPS = {
                    "accepts them, and the Gallina mirror of Verify/calculateHashes is compared with the code on the same calls.",
         technique="Coq reference model + mirror of Verify + extracted-oracle correspondence",
     ),
+    "C03": dict(
+        rule="(a) exhaustive over a small alphabet on small forests (<=5/8 leaves, states with deleted slots): every position in "
+             "[0, 2^(rows+1)+1] x every hash in {all node hashes, zero, fresh} x every proof of <=2 alphabet hashes, plus sampled "
+             "pairs of claims (duplicates, siblings, nested); (b) structured mutations of honest proofs on larger forests (move/"
+             "duplicate a target, parent/child coordinate, zero/replace/drop/append/swap proof hashes, wrong hash, wrong tree); "
+             "each triple goes to Verify, Pollard.Verify, MapPollard.Verify and VerifyPartialProof; distinct_nontrivial = distinct "
+             "accepted triples + distinct mutated triples",
+        strength="refuted(pinned)+witnesses P; mirror(Verify)=code on every call V; accepted => true on every call V; unbounded soundness theorem: stated, not yet proved",
+        level_text="The verifier (calculateHashes, Verify, Pollard.Verify root matching) is mirrored in Gallina; Coq theorems exhibit the "
+                   "false claims the pinned commit accepted (defects D2-D4, now repaired) and that the repaired mirror rejects them. "
+                   "Every generated (hashes, targets, proof) triple is run on the code and on the mirror (must agree), and every accepted "
+                   "claim is checked against the reference forest by the extracted oracle.",
+        technique="Coq mirror of the verifier + refutation witnesses + extracted-oracle soundness check on enumerated/mutated inputs",
+        timeout=3000,
+    ),
+    "C04": dict(
+        rule="states incl. the empty accumulator; targets drawn from {2^40, 2^62, 2^63, 2^63+1, 2^64-2, 2^64-1, row starts +-1, "
+             "first non-existing position of each row, max position +-1, 0, 1}, 0-9 targets, mismatched lengths, empty and 10x oversized "
+             "proofs; every call in a killable child process with a deadline; Stump.Update on a copy, compared with the pre-call "
+             "stump on rejection; timing of Verify for 10..10^4 targets; distinct_nontrivial = distinct (targets, #hashes, #proof)",
+        strength="P: atomic rejection (mirror, all inputs), non-termination witness for the pinned loop; V: no hang/panic on generated inputs, mirror = code",
+        level_text="Atomic rejection is a theorem about the state-passing Gallina mirror of Stump.Update for every input; the pinned "
+                   "commit's non-terminating loop is exhibited as a Coq witness (and was repaired). Totality on the real code is "
+                   "checked by running every entry point on boundary/malformed inputs in a killable child process with a watchdog, "
+                   "and comparing outcome and post-state with the mirror.",
+        technique="Coq mirror with explicit fuel/Err/Panic outcomes + watchdogged differential run",
+        timeout=3000,
+    ),
+    "C05": dict(
+        rule="(a) small forests: every accepted enumerated claim whose targets are live leaves is applied (with one addition) to "
+             "fresh copies of Stump, Pollard and MapPollard (TotalRows 0,3,63); (b) histories in which every block is applied in a "
+             "non-canonical encoding: targets and hashes jointly permuted, 0-3 junk hashes appended; roots compared with the "
+             "reference after deleting exactly the leaves at the claimed positions",
+        strength="refuted(pinned) P; V: accepted encodings applied identically (oracle)",
+        level_text="A Coq witness shows that at the pinned commit an accepted proof made the stump delete another leaf than the forests "
+                   "(defect D4, repaired). On the repaired code every accepted non-canonical encoding is applied to all implementations "
+                   "and judged against the reference forest by the extracted oracle; the Verify mirror is compared on every call.",
+        technique="Coq mirror + refutation witness + extracted-oracle correspondence on non-canonical encodings",
+        timeout=3000,
+    ),
     "C10": dict(
         rule=HIST_RULE + "; after every block: GetLeafPosition for every live leaf, every dead leaf, every internal node hash and a "
              "fresh hash; GetHash for every position in [0, 2^(rows+1)+3] and 2^40, 2^63, 2^64-2, 2^64-1; NodeMap/NumDels/"
@@ -103,5 +143,6 @@ PROPS = {
     ),
 }
 
+# hooks
 HOOK_COMMITS = ["1f8cf1e"]
 NOT_YET = {}
